@@ -8,6 +8,7 @@ Decides:
               parameter never flow (by data or by a dominating branch condition) into set_reg/set_pc/store/push/pop
   3 WHO-MAY   Python: the execute path reads no module-level mutable state except tracing switches that only guard logging;
               `call_sub_level` feeds only itself; the fetch decoder is created per call
+  4 FLOW      machine emulator: call-depth bookkeeping is never tested or copied into other state; no instruction memo in the fetch
 """
 from __future__ import annotations
 
